@@ -68,18 +68,13 @@ def decodeRune : Bytes → Nat × Nat
 
 def foldRune (r : Nat) : Nat := if 65 ≤ r && r ≤ 90 then r + 32 else r
 
-/-- equalASCIIFold; fuel = length of s (every iteration consumes at least one byte of s) -/
-def equalASCIIFoldAux : Nat → Bytes → Bytes → Bool
-  | 0, s, t => s == t
-  | fuel + 1, s, t =>
-    if s.isEmpty || t.isEmpty then s == t
-    else
-      let (sr, ss) := decodeRune s
-      let (tr, ts) := decodeRune t
-      if sr == tr || foldRune sr == foldRune tr then equalASCIIFoldAux fuel (s.drop ss) (t.drop ts)
-      else false
+def foldByte (b : UInt8) : UInt8 := if 65 ≤ b.toNat && b.toNat ≤ 90 then b + 32 else b
 
-def equalASCIIFold (s t : Bytes) : Bool := equalASCIIFoldAux (s.length + 1) s t
+/-- equalASCIIFold: equal length and byte-wise equal after folding A–Z -/
+def equalASCIIFold : Bytes → Bytes → Bool
+  | [], [] => true
+  | a :: s, b :: t => foldByte a == foldByte b && equalASCIIFold s t
+  | _, _ => false
 
 /-- one header line of a `1#token` list: does it contain `value`? fuel = length -/
 def lineContainsAux : Nat → Bytes → Bytes → Bool
